@@ -37,7 +37,12 @@ ASSUMPTIONS = [
     'alphabet: code points of the BMP; Unicode decimal digits other than 0-9 (accepted by \\d) are not generated',
     'the in-process parser is tatsu.compile(bql.ebnf) run with BQLSemantics; TatSu passes rule parameters of an interpreted '
     'grammar as one string "Neg::UnaryOp", the harness adapter keeps the first component (as the generated code does)',
+    'PEG stream: Model/Peg.v is a generic interpreter of the regenerated grammar value (proved sound w.r.t. a declarative PEG '
+    'semantics with cut / greedy closures / seed-growing left recursion, for every grammar); that this semantics IS TatSu 5.7.4\'s '
+    'is validated by the four-way differential, not verified; character classes are ASCII, regular expressions are matched by '
+    'one hand-written matcher per pattern text (an unknown pattern text fails closed)',
 ]
+EXTRA_TARGETS = ['Model/PegActions.vo']
 
 # ---------------------------------------------------------------------------------------------------------------
 # trees (mirror of Model/Ast.v):  lit / expr / fromc / stmt as nested tuples
@@ -1091,6 +1096,84 @@ def coq_parse(texts, tag):
                          [f'parse_out {cstr(t)}' for t in texts], shard=200)
 
 
+def coq_peg(texts, tag):
+    """[hand-written parser result, PEG-interpreter-on-Gen.Grammar.grammar result] per text, both inside Coq"""
+    return core.coq_eval(tag, ['Model.Ast', 'Model.Lexer', 'Model.Parser', 'Model.Printer', 'Model.AstOut', 'Model.PegActions'],
+                         [f'both_out {cstr(t)}' for t in texts], shard=40)
+
+
+PEG_CODES = {98: 'accepted text whose node is not an ast.py statement object', 99: 'out of fuel'}
+
+
+def peg_stream(printed, muts, rng, quick):
+    """FOUR-way comparison on the same texts as the other streams: shipped parser, parser rebuilt in-process from bql.ebnf,
+    hand-written Coq parser, and peg_parse = the generic PEG interpreter (Model/Peg.v) executing Gen.Grammar.grammar
+    (regenerated from bql.ebnf by generate()) inside Coq.  peg_parse must give the verdict AND the AST of the TatSu parsers
+    on every text (printer outputs, mutated texts, corpus); the hand-written parser is measured against it."""
+    n_p, n_m = (700, 560) if quick else (6000, 6000)
+    scale = float(os.environ.get('C06_PEG_SCALE', '1'))
+    n_p, n_m = int(n_p * scale), int(n_m * scale)
+    corpus = [t for t in CORPUS if all(ord(c) < 0x10000 for c in t)]
+    rest = [m for m in muts if m not in set(corpus)]
+    cases = ([('printed', t) for t in (printed if len(printed) <= n_p else rng.sample(printed, n_p))]
+             + [('corpus', t) for t in corpus]
+             + [('mutated', t) for t in (rest if len(rest) <= n_m else rng.sample(rest, n_m))])
+    texts = [t for _, t in cases]
+    both = core.pmap(run_both, texts)
+    model = coq_peg(texts, 'c06g')
+    viol, seen = [], set()
+    h = {'four_agree_accept': 0, 'four_agree_reject': 0, 'peg_vs_tatsu_disagree': 0, 'hand_vs_peg_disagree': 0,
+         'tatsu_parsers_disagree': 0, 'peg_out_of_fuel': 0}
+    by_stream = {}
+    hand_diff = []
+    for (stream, text), (ri, rf), (hand, peg) in zip(cases, both, model):
+        by_stream[stream] = by_stream.get(stream, 0) + 1
+        if ri != rf or ri[0] == 'odd':
+            h['tatsu_parsers_disagree'] += 1      # reported by the mutated stream of run()
+            continue
+        want = [ri[1]] if ri[0] == 'ok' else []
+        if peg == 99:
+            h['peg_out_of_fuel'] += 1
+        if peg != want:
+            h['peg_vs_tatsu_disagree'] += 1
+            if text in CORPUS_OUTSIDE_MODEL:
+                continue
+            small = text
+
+            def still(t):
+                a, b = run_both(t)
+                if a != b or a[0] == 'odd':
+                    return False
+                w = [a[1]] if a[0] == 'ok' else []
+                return coq_peg([t], 'c06gs')[0][1] != w
+            if len(seen) < 3:
+                small = shrink_text(text, still, budget=60)
+            sig = 'peg-vs-tatsu:' + small
+            if sig not in seen and len(seen) < 3:
+                seen.add(sig)
+                a, _ = run_both(small)
+                pm = coq_peg([small], 'c06gs')[0][1]
+                viol.append(core.Violation(
+                    'peg-vs-tatsu', f'text {small!r}: shipped parser and parser built from bql.ebnf give {brief(a)}; the PEG interpreter '
+                    f'executing the regenerated grammar in Coq gives {PEG_CODES.get(pm, brief(pm)) if isinstance(pm, int) else brief(pm)}',
+                    {'text': small, 'impl': a, 'peg': pm, 'peg4': True}, signature=sig))
+            continue
+        if hand != peg:
+            h['hand_vs_peg_disagree'] += 1
+            hand_diff.append(text)
+        elif want:
+            h['four_agree_accept'] += 1
+        else:
+            h['four_agree_reject'] += 1
+    cov = {'peg_texts': len(texts), 'peg_by_stream': by_stream, 'peg_histogram': h,
+           'peg_hand_vs_peg_samples': hand_diff[:8],
+           'peg_rule': 'same printed / corpus / mutated texts as the other streams (sampled: quick '
+                       f'{n_p} printed + whole corpus + {n_m} mutated); 4 parsers: shipped parser.py, tatsu.compile(bql.ebnf), '
+                       'hand-written Model/Parser.v, Model/Peg.v interpreting Gen/Grammar.v by vm_compute; '
+                       'peg must equal the TatSu verdict and AST on every text'}
+    return cov, viol
+
+
 def kinds(e, h):
     if isinstance(e, tuple) and e and isinstance(e[0], str):
         h[e[0]] = h.get(e[0], 0) + 1
@@ -1278,6 +1361,8 @@ def run(tier, rng):
         if m != want:
             infid.append((text, 'impl accepts' if ri[0] == 'ok' else f'impl rejects ({ri[1]})',
                           'model accepts' if m else 'model rejects'))
+    peg_cov, peg_viol = peg_stream(texts, muts, rng, quick)
+    violations.extend(peg_viol)
     classes = {}
     for t, a, b in infid:
         c = classify(t)
@@ -1309,6 +1394,8 @@ def run(tier, rng):
     }
     cov.update(t2r_cov)
     cov['evaluations'] += t2r_cov['t2r_statements']
+    cov.update(peg_cov)
+    cov['evaluations'] += peg_cov['peg_texts']
     return {'coverage': cov, 'violations': violations}
 
 
@@ -1440,6 +1527,11 @@ def replay(rec):
         m = core.coq_eval('c06tr', ['Base.PyValue', 'Model.Compile', 'Model.Link', 'Model.Front'],
                           [f'(run_text_out {sc} [("v", {rows})] {c05.c_params(c.get("params"))} {cstr(c["text"])})'])[0]
         return m[0] in (3, 5) or c05.norm(m) == c05.norm(r['result'])
+    if rec.get('peg4'):
+        a, b = run_both(rec['text'])
+        if a != b or a[0] == 'odd':
+            return False
+        return coq_peg([rec['text']], 'c06gr')[0][1] == ([a[1]] if a[0] == 'ok' else [])
     if 'model' in rec:
         ri = run_impl(rec['text'])
         return ([ri[1]] if ri[0] == 'ok' else []) == rec['model']
